@@ -980,7 +980,9 @@ func aftersunGenerate(o *Opts, r *Rand) []*aftersunCase {
 	// a mirror behind its witness: the witnessed checkpoint is ahead, entries were uploaded past the mirror checkpoint
 	// (completing the tile its right edge lies in) but the upload never reached the commit
 	c = mk("mirror-behind")
-	c.Mirrors = []aftersunMirrorSpec{{Sizes: []int{300}, Pending: 300, Uploaded: 220}, {Sizes: []int{100, 255}, Pending: 400, Uploaded: 300}, {Sizes: []int{256, 513}, Pending: 600, Uploaded: 260}}
+	c.Mirrors = []aftersunMirrorSpec{{Sizes: []int{300}, Pending: 300, Uploaded: 220}, {Sizes: []int{100, 255}, Pending: 400, Uploaded: 300}, {Sizes: []int{256, 513}, Pending: 600, Uploaded: 260},
+		// never committed yet: tiles on disk, no mirror checkpoint at all — the tool skips such a directory
+		{Sizes: nil, Pending: 600, Uploaded: 520}}
 	if thorough {
 		c = mk("mirror")
 		c.Mirrors = []aftersunMirrorSpec{{Sizes: []int{511, 512, 513, 1000}}, {Sizes: []int{256, 257}}}
